@@ -43,3 +43,62 @@ let run_case line =
   | "X" :: _ | "Y" :: _ -> run_x t
   | "K" :: _ -> run_k t
   | _ -> failwith ("bad wire case: " ^ line)
+
+(* the same X case as a Gallina equation (kernel cross-check of the extracted client model) *)
+let dec_of_z z = let b = Buffer.create 8 in List.iter (fun c -> Buffer.add_char b (Char.chr (int_of_n c))) (render_Z z); Buffer.contents b
+let g_N n = "(" ^ dec_of_n n ^ ")%N"
+let g_Z z = "(" ^ dec_of_z z ^ ")%Z"
+let g_lst ty f l = if l = [] then "(@nil " ^ ty ^ ")" else g_list f l
+let g_dur d = "{| secs := " ^ g_N d.secs ^ "; nanos := " ^ g_N d.nanos ^ " |}"
+let g_mvalue = function
+  | Signed z -> "(Signed " ^ g_Z z ^ ")" | PackedSigned l -> "(PackedSigned " ^ g_lst "Z" g_Z l ^ ")"
+  | Unsigned n -> "(Unsigned " ^ g_N n ^ ")" | PackedUnsigned l -> "(PackedUnsigned " ^ g_lst "N" g_N l ^ ")"
+  | Float t -> "(Float " ^ g_str t ^ ")" | PackedFloat l -> "(PackedFloat " ^ g_lst "(list N)" g_str l ^ ")"
+let g_arg = function
+  | AI64 z -> "(AI64 " ^ g_Z z ^ ")" | AI32 z -> "(AI32 " ^ g_Z z ^ ")"
+  | AU64 n -> "(AU64 " ^ g_N n ^ ")" | AU32 n -> "(AU32 " ^ g_N n ^ ")"
+  | AF64 t -> "(AF64 " ^ g_str t ^ ")" | ADur d -> "(ADur " ^ g_dur d ^ ")"
+  | AVecU64 l -> "(AVecU64 " ^ g_lst "N" g_N l ^ ")" | AVecF64 l -> "(AVecF64 " ^ g_lst "(list N)" g_str l ^ ")"
+  | AVecDur l -> "(AVecDur " ^ g_lst "duration" g_dur l ^ ")" | AUser v -> "(AUser " ^ g_mvalue v ^ ")"
+let g_kind = function
+  | Counter -> "Counter" | Timer -> "Timer" | Gauge -> "Gauge" | Meter -> "Meter"
+  | Histogram -> "Histogram" | Distribution -> "Distribution" | SetK -> "SetK"
+let g_bop = function
+  | WithTag (k, v) -> "(WithTag " ^ g_str k ^ " " ^ g_str v ^ ")" | WithTagValue v -> "(WithTagValue " ^ g_str v ^ ")"
+  | WithContainerId c -> "(WithContainerId " ^ g_str c ^ ")" | WithTimestamp t -> "(WithTimestamp " ^ g_N t ^ ")"
+  | WithSamplingRate r -> "(WithSamplingRate " ^ g_str r ^ ")"
+let g_tag (k, v) = "(" ^ g_option g_str k ^ ", " ^ g_str v ^ ")"
+let g_form = function TrySend -> "TrySend" | Plain -> "Plain" | Quiet -> "Quiet"
+let g_so = function Accept -> "Accept" | Refuse (k, id) -> "(Refuse " ^ g_N k ^ " " ^ g_N id ^ ")"
+let g_merr = function EInvalid -> "EInvalid" | EIo (k, id) -> "(EIo " ^ g_N k ^ " " ^ g_N id ^ ")"
+let g_ret = function ROkMetric l -> "(ROkMetric " ^ g_str l ^ ")" | RError e -> "(RError " ^ g_merr e ^ ")" | RUnit -> "RUnit"
+
+let coq_header =
+  "Require Import Cadence.Base.Prelude Cadence.Model.Convert Cadence.Model.Wire Cadence.Model.Client.\n"
+
+let coq_case line =
+  match tokens line with
+  | ("X" | "Y") :: prefix :: dtags :: dcid :: script :: n :: rest when String.length line < 1200 ->
+    let cfg = { c_prefix = unhex0 prefix; c_tags = parse_dtags dtags;
+                c_container = (if dcid = "~" then None else Some (unhex0 dcid)) } in
+    let rec calls k rest acc =
+      if k = 0 then List.rev acc else
+      match rest with
+      | form :: kind :: arg :: key :: ops :: rest' ->
+        calls (k - 1) rest' ((parse_form form, { k_kind = parse_kind kind; k_key = unhex0 key; k_arg = parse_arg arg;
+                                                k_ops = parse_ops ops }) :: acc)
+      | _ -> failwith "short X case" in
+    let cs = calls (int_of_string n) rest [] in
+    let sc = parse_script script in
+    let g_call (f, c) = "(" ^ g_form f ^ ", {| k_kind := " ^ g_kind c.k_kind ^ "; k_key := " ^ g_str c.k_key ^
+                        "; k_arg := " ^ g_arg c.k_arg ^ "; k_ops := " ^ g_lst "bop" g_bop c.k_ops ^ " |})" in
+    let lhs = Printf.sprintf "send_calls {| c_prefix := %s; c_tags := %s; c_container := %s |} %s %s"
+        (g_str cfg.c_prefix) (g_lst "tag" g_tag cfg.c_tags) (g_option g_str cfg.c_container)
+        (g_lst "(form * call)" g_call cs) (g_lst "sink_outcome" g_so sc) in
+    let g_o1 o = "{| o_ret := " ^ g_ret o.o_ret ^ "; o_emitted := " ^ g_lst "(list N)" g_str o.o_emitted ^
+                 "; o_handled := " ^ g_lst "merror" g_merr o.o_handled ^ " |}" in
+    let rhs = match send_calls cfg cs sc with
+      | None -> "(@None (list outcome1))"
+      | Some os -> "(Some " ^ g_lst "outcome1" g_o1 os ^ ")" in
+    Some (lhs ^ " = " ^ rhs)
+  | _ -> None
